@@ -100,5 +100,22 @@ Theorem C19_policy_enforced_partial : forall s viap ip down up pr,
 Proof. exact policy_enforced_partial. Qed.
 Print Assumptions C19_policy_enforced_partial.
 
+(* the policy table (pkg/radius/policy.go): a plan that is RE-defined and re-applied is the plan in force —
+   FULL, for every prior state, every name, every old and new value (lower / higher rate, rate 0, burst,
+   priority): GetPolicy returns the new definition and SetSubscriberPolicy writes exactly what
+   SetSubscriberQoS writes for the new values *)
+Theorem C19_policy_redefinition_applied : forall s n ip d1 u1 b1 p1 d2 u2 b2 p2, n <> [] ->
+  let s2 := after_ops s [PolAdd n d1 u1 b1 p1; ApplyPol ip n; PolAdd n d2 u2 b2 p2] in
+  step s2 (PolGet n) = (s2, OPol (Some (d2, u2, b2, p2)), []) /  step s2 (ApplyPol ip n) = step s2 (SetQoS true ip d2 u2 b2 p2).
+Proof. exact policy_redefinition_applied. Qed.
+Print Assumptions C19_policy_redefinition_applied.
+
+Theorem C19_policy_via_plan_enforced_partial : forall s n ip down up pr,
+  n <> [] -> palindromic ip -> down < 34359738368 -> up < 34359738368 -> pr < 256 ->
+  let s' := after_ops s [PolAdd n down up 0 pr; ApplyPol ip n] in
+  enforced s' Egress ip down (contract_burst down 0) /\ enforced s' Ingress ip up (contract_burst up 0).
+Proof. exact policy_via_plan_enforced_partial. Qed.
+Print Assumptions C19_policy_via_plan_enforced_partial.
+
 Example C19_policy_guard_satisfiable : palindromic [10; 1; 1; 10] /\ contract_burst 50000000 0 = 6250000.
 Proof. split; [exists 10, 1; repeat split; reflexivity|reflexivity]. Qed.
